@@ -16,6 +16,13 @@ class Boom(Exception):
     pass
 
 
+# "the server failed" comes in many classes, all of them OSError: every raise takes the next one (the first of a run is the run's number),
+# so that each kind is the *first* failure of many histories; the classes raised in a run are listed in the case description
+import socket as _socket
+OS_ERRORS = [OSError, ConnectionRefusedError, ConnectionResetError, TimeoutError, BrokenPipeError, _socket.gaierror, ConnectionAbortedError, _socket.herror]
+KIND = [0]
+RUNS = [0]
+ERRKINDS = []
 OTHER_ERRORS = [Boom]        # main() adds the client's own error classes that say "your request was wrong", not "the server failed"
 
 
@@ -28,7 +35,10 @@ class Fake:
         o = ENV.get(i, "ok")
         LOG.append((i, CLOCK[0], o))
         if o == "oserror":
-            raise OSError("x")
+            cls = OS_ERRORS[KIND[0] % len(OS_ERRORS)]
+            KIND[0] += 1
+            ERRKINDS.append(cls.__name__)
+            raise cls("x")
         if o == "othererror":
             # an error that is not a failure of the server: an arbitrary exception, or one of memcached's "bad request" answers
             raise OTHER_ERRORS[(i + int(CLOCK[0])) % len(OTHER_ERRORS)]("y")
@@ -105,6 +115,9 @@ class Runner:
         ra, rt, dt, ign = cfg
         CLOCK[0] = 0
         H = self.H
+        RUNS[0] += 1
+        KIND[0] = RUNS[0]
+        del ERRKINDS[:]
 
         class HC(H.HashClient):
             client_class = Fake
@@ -164,7 +177,7 @@ def ev_text(e):
 def monitor(ctx, cfg, n, evs, lines, logs, case_tags, snaps=None):
     ra, rt, dt, ign = cfg
     case = {"cfg": {"retry_attempts": ra, "retry_timeout": rt, "dead_timeout": dt, "ignore_exc": ign}, "servers": n,
-            "events": [ev_text(e) for e in evs], "trace": lines[-3:]}
+            "events": [ev_text(e) for e in evs], "trace": lines[-3:], "oserror_classes_in_order": list(ERRKINDS)[:12]}
     tags = list(case_tags)
     for ln in lines:
         if "res=internal" in ln:
